@@ -112,6 +112,19 @@ FAMILY = [
     ("optional_sum_product", optional(sm(prod(arg("int"), arg("int")), usw(None, "flag"))), ""),
     ("product_sum_arg", prod(sm(usw(None, "flag"), usw(None, "zed")), arg("string")), ""),
     ("sum_same_names", sm(sw(None, "flag"), sw(None, "flag")), ""),
+    # context propagation: for every composite C an option inside C with a positional consumer
+    # that runs before it (inside or outside C), and the other way round
+    ("sum_right_arg_opt", sm(usw(None, "flag"), prod(arg("int"), opt(None, "opt", "int"))), ""),
+    ("sum_left_arg_opt", sm(prod(arg("int"), opt("o", "opt", "int")), usw(None, "flag")), ""),
+    ("sum_nested_arg_opt", sm(usw(None, "flag"), sm(usw(None, "zed"), prod(arg("int"), opt(None, "opt", "int")))), ""),
+    ("sum_arg_then_opt", prod(sm(usw(None, "flag"), arg("int")), opt(None, "opt", "int")), ""),
+    ("arg_then_sum_opt", prod(arg("string"), sm(opt(None, "opt", "int"), usw(None, "flag"))), ""),
+    ("optional_arg_opt", optional(prod(arg("int"), opt(None, "opt", "int"))), ""),
+    ("arg_then_optional_opt", prod(arg("string"), optional(opt(None, "opt", "int"))), ""),
+    ("optional_arg_then_opt", prod(optional(arg("int")), opt("o", "opt", "int")), ""),
+    ("many_arg_opt", many(prod(arg("string"), opt(None, "opt", "int"))), ""),
+    ("arg_then_many_opt", prod(arg("string"), many(opt(None, "opt", "int"))), ""),
+    ("nested_product_left", prod(prod(arg("int"), opt(None, "opt", "int")), sw(None, "flag")), ""),
     ("commands_basic", commands(opt(None, "opt", "int", 7), ("ca", arg("int")), ("cb", unit())), ""),
     ("commands_switch", commands(sw(None, "flag"), ("ca", opt(None, "opt", "string")), ("cb", many(arg("string")))), ""),
     ("commands_unit", commands(unit(), ("ca", sw("f", "flag")), ("cb", arg("enum"))), ""),
@@ -122,6 +135,8 @@ FAMILY = [
     ("help_arg", arg("int"), "h"),
     ("help_switch_arg", prod(sw("f", "flag"), arg("string")), "h"),
     ("help_commands", commands(opt(None, "opt", "int", 7), ("ca", unit())), "h"),
+    ("help_arg_opt", prod(arg("int"), opt(None, "opt", "int")), "h"),
+    ("help_many_opt", prod(many(arg("string")), opt("o", "opt", "string")), "h"),
     # definitions that are not well formed (constructor outcome only)
     ("bad_flag_names", flag("flag", "flag", "int", 1, 0), ""),
     ("bad_flag_values", flag(None, "flag", "int", 0, 0), ""),
@@ -133,6 +148,9 @@ FAMILY = [
     ("bad_product_short_clash", prod(sw("f", "flag"), opt("f", "opt", "int")), ""),
     ("bad_product_long_vs_short", prod(sw(None, "f"), sw("f", "flag")), ""),
     ("bad_product_nested", prod(arg("int"), optional(usw(None, "flag")), many(opt(None, "flag", "int"))), ""),
+    ("bad_product_sum_right", prod(sw(None, "flag"), sm(usw(None, "zed"), usw(None, "flag"))), ""),
+    ("bad_product_sum_left_option", prod(opt(None, "opt", "int"), sm(opt(None, "opt", "string"), usw(None, "zed"))), ""),
+    ("bad_product_sum_right_option", prod(opt(None, "opt", "int"), sm(usw(None, "zed"), opt(None, "opt", "string"))), ""),
     ("bad_commands_names", commands(unit(), ("ca", unit()), ("ca", arg("int"))), ""),
 ]
 
